@@ -85,7 +85,14 @@ func (g *Engine) registerIntrinsics() {
 		return &Str{b: o, off: tb.K(64, 0), len: n}
 	})
 	vx("vxAssume", func(e *Exec, a []Value, pos token.Pos) Value {
-		e.assume(a[0].(*Term))
+		c := a[0].(*Term)
+		e.assume(c)
+		if !c.isConst() && len(e.dec) >= len(e.prefix) {
+			// keep the path condition satisfiable: an infeasible path would pass every assertion vacuously
+			if e.sat(e.tb.True()) == "unsat" {
+				panic(pathEnd{"assume-infeasible"})
+			}
+		}
 		return nil
 	})
 	vx("vxAssert", func(e *Exec, a []Value, pos token.Pos) Value {
